@@ -517,6 +517,22 @@ func (p *Proxy) handleConnectRequest(ctx *Context, req *http.Request, session *S
 		return nil
 	}
 
+	if res.StatusCode/100 != 2 {
+		// The downstream proxy declined (407, 403, 502 ...). Its answer is an
+		// ordinary response: relay it with the framing it came with, so that the
+		// client can tell where it ends, and do not open a tunnel on top of a
+		// refusal. The connection to the downstream proxy served this CONNECT
+		// only, so both are closed afterwards.
+		res.Close = true
+		if err := res.Write(brw); err != nil {
+			log.Errorf("martian: got error while writing response back to client: %v", err)
+		}
+		if err := brw.Flush(); err != nil {
+			log.Errorf("martian: got error while flushing response back to client: %v", err)
+		}
+		return errClose
+	}
+
 	res.ContentLength = -1
 	if err := res.Write(brw); err != nil {
 		log.Errorf("martian: got error while writing response back to client: %v", err)
@@ -800,6 +816,9 @@ func (p *Proxy) connect(req *http.Request) (*http.Response, net.Conn, error) {
 
 		res, err := http.ReadResponse(pbr, req)
 		if err != nil {
+			// No usable answer (closed, cut short, not HTTP): the connection is
+			// of no further use, and nobody else would release it.
+			conn.Close()
 			return nil, nil, err
 		}
 
